@@ -589,6 +589,25 @@ theorem dispatch_quit_and_unsupported (E : Mimic.Py.Env S) (cp : S → Nat) (pc 
     (command ∉ dispatched → dispatch E cp pc coldef parse app other c command rest = .error c) :=
   ⟨dispatch_quit_iff E cp pc coldef parse app other c command rest, dispatch_unsupported E cp pc coldef parse app other c command rest⟩
 
+/-- **A whole COM_QUERY exchange, on the translated code**: the packet `0x03 · payload` goes in; for a result set whose row
+    source yields `rows` (and then raises iff `boom`) the wire gets the metadata block, the optional metadata EOF, every row in
+    order, and then **either** the terminator (affected rows = number of rows) and a drain **or** — iff the source raised —
+    exactly one ERR; the sequence reset comes last and the loop goes on. -/
+theorem code_query_exchange (E : Mimic.Py.Env S) (cp : S → Nat) (pc : Nat → Mimic.Py.Bytes) (coldef : Nat → Nat → Mimic.Py.Bytes)
+    (parse : Connection S → Mimic.Py.Bytes → Option (ComStmtExecute S)) (app : S → Option (ResultSet S))
+    (other : Nat → Connection S → Mimic.Py.Bytes → Except (Connection S) (Connection S)) (err : Connection S → Mimic.Py.Bytes)
+    (c : Connection S) (payload : Mimic.Py.Bytes) (q : Mimic.Extracted.ParsersCode.ComQuery S) (rs : ResultSet S)
+    (hp : Mimic.Extracted.ParsersCode.parse_com_query E c.capabilities c.client_charset payload = some q) (ha : app q.sql = some rs)
+    (hne : rs.columns.isEmpty = false) :
+    ∃ (w f l w2 fl : Nat),
+      let pre := if deprecate_eof c then [] else [Ev.write (eof c w f) false]
+      let sent := c.out ++ queryMeta coldef c rs ++ pre ++ rs.rows.rows.map (fun p => Ev.write p false)
+      (command_step E cp pc coldef parse app other err c (3 :: payload)).2 = true ∧
+      ∃ e : Mimic.Py.Bytes, (command_step E cp pc coldef parse app other err c (3 :: payload)).1.out
+        = if rs.rows.boom then sent ++ [Ev.write e true, Ev.reset_seq]
+          else sent ++ [Ev.write (ok_or_eof c rs.rows.rows.length l w2 fl) false, Ev.drain, Ev.reset_seq] :=
+  query_command_response E cp pc coldef parse app other err c payload q rs hp ha hne
+
 /-- the command bytes the code dispatches are the ones the machine's command set names (extracted order of the if / elif chain) -/
 theorem dispatched_codes : dispatched = [3, 22, 24, 23, 28, 26, 25, 14, 17, 31, 13, 1, 2, 4] := by decide
 
